@@ -15,7 +15,8 @@ Inductive syntax :=
   | Scalar | VersionF | ArchList | ArchOne | DepF | IntF | BoolF
   | CommaList                      (* "a, b,\n c": comma separated, possibly folded *)
   | SpaceList                      (* "a b\n c": blank separated, possibly folded *)
-  | HashLines (alg : str).         (* one "hash size name" (or "name hash") entry per line *)
+  | HashLines (alg : str)          (* one "hash size name" (or "name hash") entry per line *)
+  | ChangesFiles.                  (* .changes Files: "md5 size section priority name" per line *)
 Record row := { debian_field : str; syn : syntax; go_field : str }.
 
 Definition find_field (sch : schema) (g : str) : option fdesc := find (fun f => str_eqb (go_name f) g) sch.
@@ -42,6 +43,9 @@ Definition row_ok (sch : schema) (r : row) : bool :=
       | HashLines alg, KSlice (KStruct n) =>
           str_eqb (delim f) (bytes [10]) && has_all ws4 (strip f) &&
           str_eqb n (pkg "pault.ag/go/debian/control." ++ alg ++ pkg "FileHash")
+      | ChangesFiles, KSlice (KStruct n) =>
+          str_eqb (delim f) (bytes [10]) && has_all ws4 (strip f) &&
+          str_eqb n (pkg "pault.ag/go/debian/control.FileListChangesFileHash")
       | _, _ => false
       end
   end.
@@ -68,3 +72,31 @@ Definition binary_index_table : list row := [
   R "SHA256" Scalar "SHA256" ].
 Definition best_checksums_table : list row := [
   R "Checksums-Sha256" (HashLines (s "SHA256")) "ChecksumsSha256"; R "Checksums-Sha512" (HashLines (s "SHA512")) "ChecksumsSha512" ].
+
+Definition changes_table : list row := [
+  R "Format" Scalar "Format"; R "Source" Scalar "Source"; R "Binary" SpaceList "Binaries";
+  R "Architecture" ArchList "Architectures"; R "Version" VersionF "Version"; R "Distribution" Scalar "Distribution";
+  R "Urgency" Scalar "Urgency"; R "Maintainer" Scalar "Maintainer"; R "Changed-By" Scalar "ChangedBy";
+  R "Closes" SpaceList "Closes"; R "Changes" Scalar "Changes";
+  R "Checksums-Sha1" (HashLines (s "SHA1")) "ChecksumsSha1"; R "Checksums-Sha256" (HashLines (s "SHA256")) "ChecksumsSha256";
+  R "Files" ChangesFiles "Files" ].
+Definition source_par_table : list row := [
+  R "Source" Scalar "Source"; R "Maintainer" Scalar "Maintainer"; R "Uploaders" CommaList "Uploaders";
+  R "Section" Scalar "Section"; R "Priority" Scalar "Priority";
+  R "Build-Depends" DepF "BuildDepends"; R "Build-Depends-Indep" DepF "BuildDependsIndep";
+  R "Build-Conflicts" DepF "BuildConflicts"; R "Build-Conflicts-Indep" DepF "BuildConflictsIndep" ].
+Definition binary_par_table : list row := [
+  R "Package" Scalar "Package"; R "Architecture" ArchList "Architectures"; R "Section" Scalar "Section";
+  R "Priority" Scalar "Priority"; R "Essential" BoolF "Essential"; R "Description" Scalar "Description";
+  R "Depends" DepF "Depends"; R "Recommends" DepF "Recommends"; R "Suggests" DepF "Suggests"; R "Enhances" DepF "Enhances";
+  R "Pre-Depends" DepF "PreDepends"; R "Breaks" DepF "Breaks"; R "Conflicts" DepF "Conflicts"; R "Replaces" DepF "Replaces";
+  R "Built-Using" DepF "BuiltUsing" ].
+Definition deb_control_table : list row := [
+  R "Package" Scalar "Package"; R "Source" Scalar "Source"; R "Version" VersionF "Version";
+  R "Architecture" ArchOne "Architecture"; R "Maintainer" Scalar "Maintainer"; R "Installed-Size" IntF "InstalledSize";
+  R "Multi-Arch" Scalar "MultiArch"; R "Depends" DepF "Depends"; R "Recommends" DepF "Recommends"; R "Suggests" DepF "Suggests";
+  R "Breaks" DepF "Breaks"; R "Replaces" DepF "Replaces"; R "Built-Using" DepF "BuiltUsing";
+  R "Section" Scalar "Section"; R "Priority" Scalar "Priority"; R "Homepage" Scalar "Homepage"; R "Description" Scalar "Description" ].
+(* the required fields of a .deb control file *)
+Definition required_ok (sch : schema) (names : list str) : bool :=
+  forallb (fun g => match find_field sch g with Some f => required f | None => false end) names.
